@@ -9,18 +9,16 @@
      * onnxscript/ir/_schemas.py  op_signature_from_function               -> fn_sig (data; produced by
          the translator from the live functions' op_signature, never re-derived here)
      * torch/onnx/_internal/exporter/_building.py _construct_named_inputs_and_attrs applied to the
-         function's op_signature                                          -> bind_signature = bind
-         This is the binder of the property ("positional schema arguments by position, keyword-only
-         ones by name") and it is used for EVERY entry, scripted or trace-only: what matches no
-         parameter of the signature is dropped.  It is what OnnxFunction.__call__ ->
-         OpRecorder.eval_function runs for scripted functions.
+         function's op_signature                                          -> bind_signature
+         the path of a scripted OnnxFunction: OnnxFunction.__call__ -> OpRecorder.eval_function; what
+         matches no parameter of the signature is silently dropped.
      * Python's own call binding f( *args, **kwargs )                       -> bind_python
-         onnxscript/_internal/values.py TracedOnnxFunction.__call__ is `return self.func( *args, **kwargs )`,
-         so the installed exporter reaches a trace-only function this way (observed: exporting
-         rand_like(x, memory_format=...) ends in TypeError "unexpected keyword argument").  It is
-         modelled and compared with the real thing, and related to bind_signature by a theorem
-         (it succeeds exactly when bind_signature succeeds and drops nothing, with the same result),
-         but it is NOT what binds_ok judges: an unmatched droppable keyword counts as dropped.
+         the path of a trace-only function: torch _core.py calls onnx_function( *onnx_args, **onnx_kwargs )
+         and onnxscript/_internal/values.py TracedOnnxFunction.__call__ is `return self.func( *args, **kwargs )`
+         (observed: exporting rand_like(x, memory_format=...) ends in TypeError "unexpected keyword
+         argument"); what would be dropped raises instead.
+     bind f c takes the path the exporter takes for f (f_traced); the two binders are related by a
+     theorem (bind_python succeeds exactly when bind_signature succeeds and drops nothing).
 
    A call is described by its *shape* only: how many positional schema arguments it supplies and
    which keyword-only schema arguments it supplies; binding never looks at values.
@@ -54,7 +52,7 @@ Inductive attr_ty := AInt | AFloat | AString | AInts | AFloats | AStrings | ATen
 Inductive pkind := PInput | PAttr (t : attr_ty).
 Record param := mkP { p_name : string; p_kind : pkind; p_required : bool }.
 Record fn_sig := mkF { f_params : list param;
-                       f_traced : bool (* trace_only=True; informational: binds_ok does not depend on it *) }.
+                       f_traced : bool (* trace_only=True: called as a plain Python function *) }.
 
 Record call := mkC {
   c_npos : nat;            (* the first c_npos positional schema arguments are supplied, in order *)
@@ -129,9 +127,6 @@ Definition bind_signature (ps : list param) (c : call) : result binding :=
               (filter (fun k => negb (kw_bound k bound)) (c_kws c)))
   end.
 
-(* the binder of the property, for every registered function *)
-Definition bind (f : fn_sig) (c : call) : result binding := bind_signature (f_params f) c.
-
 (* Python's call binding of a function whose parameters are all positional-or-keyword: the same
    assignment, but whatever bind_signature would drop raises TypeError *)
 Definition bind_python (ps : list param) (c : call) : result binding :=
@@ -141,9 +136,9 @@ Definition bind_python (ps : list param) (c : call) : result binding :=
   | OK b => match b_dropped_kw b with k :: _ => Err (UnexpectedKeyword k) | [] => OK b end
   end.
 
-(* correspondence helper only: which of the two binders a test case exercises *)
-Definition bind_mode (python : bool) (ps : list param) (c : call) : result binding :=
-  if python then bind_python ps c else bind_signature ps c.
+(* binding the way the exporter does, for the kind of function at hand *)
+Definition bind (f : fn_sig) (c : call) : result binding :=
+  if f_traced f then bind_python (f_params f) c else bind_signature (f_params f) c.
 
 (* ------------------------------------------------------------------------------ what may go where *)
 
@@ -212,16 +207,18 @@ Definition binds_ok (s : schema) (f : fn_sig) : bool :=
   let ps := f_params f in
   check_params pos kw ps 0 &&
   (* positional schema arguments beyond the last parameter *)
-  forallb (fun a => droppable (a_name a)) (skipn (length ps) pos) &&
+  (if f_traced f then length pos <=? length ps
+   else forallb (fun a => droppable (a_name a)) (skipn (length ps) pos)) &&
   (* keyword-only schema arguments: taken by a parameter of that name that no positional argument
      can fill, or dropped *)
   forallb (fun k => has_param_from (length pos) (a_name k) ps
-                    || droppable (a_name k)) kw.
+                    || (negb (f_traced f) && droppable (a_name k))) kw.
 
 (* ------------------------------------------------- diagnosis (used by the harness on a failing entry) *)
 
 Inductive why :=
-  WTensorToAttr | WNotAccepted | WRequiredUnbound | WDroppedPositional | WDroppedKeyword.
+  WTensorToAttr | WNotAccepted | WRequiredUnbound | WDroppedPositional | WTooManyPositional
+| WDroppedKeyword | WUnexpectedKeyword.
 
 (* (schema argument name or parameter name, reason, a conforming call shape on which it shows) *)
 Definition why_pair (a : sarg) (p : param) : why := if is_tensor a then WTensorToAttr else WNotAccepted.
@@ -258,10 +255,16 @@ Definition diagnose (s : schema) (f : fn_sig) : list (string * why * call) :=
   let kw := kw_args s in
   let ps := f_params f in
   diag_params pos kw ps 0 ++
-  map (fun a => (a_name a, WDroppedPositional, mkC (length pos) (required_kws kw)))
-      (filter (fun a => negb (droppable (a_name a))) (skipn (length ps) pos)) ++
+  (if f_traced f then
+     (if length pos <=? length ps then []
+      else match nth_error pos (length ps) with
+           | Some a => [(a_name a, WTooManyPositional, mkC (length pos) (required_kws kw))]
+           | None => [] end)
+   else map (fun a => (a_name a, WDroppedPositional, mkC (length pos) (required_kws kw)))
+            (filter (fun a => negb (droppable (a_name a))) (skipn (length ps) pos))) ++
   flat_map (fun k =>
       if has_param_from (length pos) (a_name k) ps then []
+      else if f_traced f then [(a_name k, WUnexpectedKeyword, mkC (length pos) (a_name k :: required_kws kw))]
       else if droppable (a_name k) then []
       else [(a_name k, WDroppedKeyword, mkC (length pos) (a_name k :: required_kws kw))]) kw.
 
@@ -400,8 +403,7 @@ Fixpoint list_eqb {A} (eq : A -> A -> bool) (l1 l2 : list A) : bool :=
   | x :: r1, y :: r2 => eq x y && list_eqb eq r1 r2
   | _, _ => false end.
 Definition outcome_agrees (f : fn_sig) (c : call) (obs : option (list source * list string)) : bool :=
-  (* in a correspondence case the flag of the signature selects the binder under test *)
-  match bind_mode (f_traced f) (f_params f) c, obs with
+  match bind f c, obs with
   | Err _, None => true
   | OK b, Some (srcs, dk) =>
       list_eqb src_eqb (map snd (b_bound b)) srcs && list_eqb String.eqb (b_dropped_kw b) dk
